@@ -256,7 +256,8 @@ def evaluate(case: Dict[str, Any], base: Any, ctx: Any = None) -> List[Tuple[str
     try:
         s, why = sdk.build_py_sdk(text, base)
     except BaseException as e:  # noqa
-        return [(f"sdk-import-fails:{type(e).__name__}", runner.exc_text(e))]
+        msg = re.sub(r"'[^']*'", "'_'", str(e).split("(")[0])[:60].strip()
+        return [(f"sdk-import-fails:{type(e).__name__}:{msg}", runner.exc_text(e) + "\n" + text[-1500:])]
     if s is None:
         if ctx is not None:
             ctx.exclude("python-target-" + why.split(":")[0])
